@@ -16,7 +16,10 @@ FACTS = common.CODEGEN_FILES + ["scan_shared_state"]
 def check(out, ctx):
     st = stream.get(ctx)
     groups = collections.defaultdict(list)
+    hang = common.hanging(st)
     for c in st["cases"]:
+        if c.g.gid in hang:
+            continue
         if c.g.meta["memo"] or c.g.meta["leftrec"] or c.g.meta["hooks"]:
             groups[(c.g.gid, c.rule)].append(c)
     keys = sorted(groups)[:: max(1, len(groups) // (40 if ctx.tier == "quick" else 400))]
